@@ -208,9 +208,10 @@ Proof. unfold append_line, render. rewrite flat_map_app. cbn. rewrite app_nil_r.
 Section W.
   Variable alnum : N -> bool.
 
-  Definition word_stepL (maxw : N) (st : list CommentLine * CommentLine * bool) (word : str) :=
+  Definition word_stepL (maxw nsp0 : N) (st : list CommentLine * CommentLine * bool) (word : str) :=
     let '(ls, cur, b) := st in
     if is_nil (content cur) || (blen (content cur) + blen word <=? maxw)
+       || is_nil (trim word) || ((nsp0 =? 0) && starts_prefix_char word)
     then (ls, with_content cur (content cur ++ word ++ [space]), b)
     else (ls ++ [cur], with_content cur (word ++ [space]), true).
 
@@ -222,7 +223,7 @@ Section W.
       if b && is_open_line alnum prev && is_same_prefix prev orig
       then (ls, with_content prev (content prev ++ [space]))
       else (ls ++ [prev], with_content orig []) in
-    let '(ls2, cur2, b2) := fold_left (word_stepL maxw) (split_on space (content orig)) (ls1, cur, false) in
+    let '(ls2, cur2, b2) := fold_left (word_stepL maxw (n_leading_spaces orig)) (split_on space (content orig)) (ls1, cur, false) in
     (ls2, with_content orig (trim (content cur2)), b2).
 
   (* all the lines the formatter appends, in order (the first is the empty dummy line) *)
@@ -237,10 +238,10 @@ Section W.
     (forall x a, f (g x) a = g (f' x a)) -> fold_left f l (g x) = g (fold_left f' l x).
   Proof. intros H. revert x. induction l as [|a l IH]; intros x; cbn; [reflexivity|]. rewrite H. apply IH. Qed.
 
-  Lemma word_step_sim i maxw st word : word_step i maxw (rst i st) word = rst i (word_stepL maxw st word).
+  Lemma word_step_sim i maxw nsp0 st word : word_step i maxw nsp0 (rst i st) word = rst i (word_stepL maxw nsp0 st word).
   Proof.
     destruct st as [[ls cur] b]. cbn [rst word_step word_stepL].
-    destruct (is_nil (content cur) || (blen (content cur) + blen word <=? maxw)); cbn [rst]; [reflexivity|].
+    destruct (is_nil (content cur) || (blen (content cur) + blen word <=? maxw) || is_nil (trim word) || ((nsp0 =? 0) && starts_prefix_char word)); cbn [rst]; [reflexivity|].
     rewrite append_line_render. reflexivity.
   Qed.
 
@@ -251,12 +252,12 @@ Section W.
     destruct (b && is_open_line alnum prev && is_same_prefix prev orig).
     - change (render i ls, with_content prev (content prev ++ [space]), false)
         with (rst i (ls, with_content prev (content prev ++ [space]), false)).
-      rewrite (fold_left_sim (word_step i maxw) (word_stepL maxw) (rst i)) by (intros; apply word_step_sim).
+      rewrite (fold_left_sim (word_step i maxw (n_leading_spaces orig)) (word_stepL maxw (n_leading_spaces orig)) (rst i)) by (intros; apply word_step_sim).
       destruct (fold_left _ _ _) as [[ls2 cur2] b2]. reflexivity.
     - rewrite append_line_render.
       change (render i (ls ++ [prev]), with_content orig [], false)
         with (rst i (ls ++ [prev], with_content orig [], false)).
-      rewrite (fold_left_sim (word_step i maxw) (word_stepL maxw) (rst i)) by (intros; apply word_step_sim).
+      rewrite (fold_left_sim (word_step i maxw (n_leading_spaces orig)) (word_stepL maxw (n_leading_spaces orig)) (rst i)) by (intros; apply word_step_sim).
       destruct (fold_left _ _ _) as [[ls2 cur2] b2]. reflexivity.
   Qed.
 
@@ -282,14 +283,14 @@ Section W.
       rewrite !ws_words_snoc_ws by reflexivity. reflexivity.
   Qed.
 
-  Lemma word_stepL_words maxw ls cur b word :
+  Lemma word_stepL_words maxw nsp0 ls cur b word :
     sp_end (content cur) ->
-    let '(ls', cur', _) := word_stepL maxw (ls, cur, b) word in
+    let '(ls', cur', _) := word_stepL maxw nsp0 (ls, cur, b) word in
     flat_map cl_words ls' ++ cl_words cur' = flat_map cl_words ls ++ cl_words cur ++ tagw cur (ws_words word)
     /\ sp_end (content cur') /\ tagw cur' = tagw cur.
   Proof.
     intros Hs. cbn [word_stepL].
-    destruct (is_nil (content cur) || (blen (content cur) + blen word <=? maxw)).
+    destruct (is_nil (content cur) || (blen (content cur) + blen word <=? maxw) || is_nil (trim word) || ((nsp0 =? 0) && starts_prefix_char word)).
     - split; [|split].
       + f_equal. unfold cl_words, tagw. cbn [with_content content n_slashes n_exclamations].
         rewrite ws_words_sp_end_app by assumption. apply map_app.
@@ -303,17 +304,17 @@ Section W.
       + reflexivity.
   Qed.
 
-  Lemma words_fold maxw words : forall ls cur b,
+  Lemma words_fold maxw nsp0 words : forall ls cur b,
     sp_end (content cur) ->
-    let '(ls', cur', _) := fold_left (word_stepL maxw) words (ls, cur, b) in
+    let '(ls', cur', _) := fold_left (word_stepL maxw nsp0) words (ls, cur, b) in
     flat_map cl_words ls' ++ cl_words cur'
       = flat_map cl_words ls ++ cl_words cur ++ tagw cur (flat_map ws_words words)
     /\ tagw cur' = tagw cur.
   Proof.
     induction words as [|wd words IH]; intros ls cur b Hs; cbn [fold_left flat_map].
     - split; [|reflexivity]. unfold tagw at 1. cbn. rewrite app_nil_r. reflexivity.
-    - pose proof (word_stepL_words maxw ls cur b wd Hs) as H1.
-      destruct (word_stepL maxw (ls, cur, b) wd) as [[ls1 cur1] b1]. destruct H1 as [E1 [Hs1 T1]].
+    - pose proof (word_stepL_words maxw nsp0 ls cur b wd Hs) as H1.
+      destruct (word_stepL maxw nsp0 (ls, cur, b) wd) as [[ls1 cur1] b1]. destruct H1 as [E1 [Hs1 T1]].
       specialize (IH ls1 cur1 b1 Hs1). destruct (fold_left _ words _) as [[ls2 cur2] b2].
       destruct IH as [E2 T2]. split; [|congruence].
       rewrite E2. rewrite T1. rewrite app_assoc, E1. unfold tagw. rewrite map_app, <- !app_assoc. reflexivity.
@@ -339,7 +340,7 @@ Section W.
     destruct (b && is_open_line alnum prev && is_same_prefix prev orig) eqn:Em.
     - apply andb_true_iff in Em as [_ Esp]. apply same_prefix_tagw in Esp.
       set (cur0 := with_content prev (content prev ++ [space])).
-      pose proof (words_fold maxw (split_on space (content orig)) ls cur0 false) as H.
+      pose proof (words_fold maxw (n_leading_spaces orig) (split_on space (content orig)) ls cur0 false) as H.
       destruct (fold_left _ _ _) as [[ls2 cur2] b2].
       destruct H as [E T]. { right. eexists. reflexivity. }
       assert (H1 : cl_words (with_content orig (trim (content cur2))) = cl_words cur2).
@@ -351,7 +352,7 @@ Section W.
       rewrite H1, E, H2, ws_words_split_space, Hlw. unfold cur0. rewrite tagw_with_content, Esp.
       rewrite <- app_assoc. reflexivity.
     - set (cur0 := with_content orig []).
-      pose proof (words_fold maxw (split_on space (content orig)) (ls ++ [prev]) cur0 false) as H.
+      pose proof (words_fold maxw (n_leading_spaces orig) (split_on space (content orig)) (ls ++ [prev]) cur0 false) as H.
       destruct (fold_left _ _ _) as [[ls2 cur2] b2].
       destruct H as [E T]. { left. reflexivity. }
       assert (H1 : cl_words (with_content orig (trim (content cur2))) = cl_words cur2).
